@@ -4,10 +4,12 @@ mod smoke;
 mod light;
 mod rooms;
 mod c01;
+mod c02;
 mod c03;
 mod syncworld;
 mod c07;
 mod c10;
+mod c12;
 
 fn main() {
     let args = common::parse_args();
@@ -16,6 +18,8 @@ fn main() {
         "C01" => c01::run(&args),
         "C10" => c10::run(&args),
         "C07" => c07::run(&args),
+        "C12" => c12::run(&args),
+        "C02" => c02::run(&args),
         "C03" => c03::run(&args, "C03"),
         "C11" => c03::run(&args, "C11"),
         other => {
